@@ -196,15 +196,16 @@ def check_threads(desc):
 CHECKS = {"colouring": check_colouring, "isolation": check_isolation, "threads": check_threads}
 
 
-def shards(tier):
-    n = 1 if tier == "quick" else 10
+def shards(tier, seed=1):
+    q = tier == "quick"
+    n = 1 if q else 10
     out = []
-    for grp in (["DP0", "DP1", "P1"], ["RWG", "SNC"], ["DUAL0", "DUAL1"], ["BC", "RBC"]):
+    for grp, ex in ((["DP0", "DP1", "P1", "RWG", "SNC"], 120), (["DUAL0", "DUAL1", "BC", "RBC"], 40)):
         for mk in ("closed", "open"):
-            out.append({"check": "colouring", "kinds": grp, "meshkind": mk, "examples": (60 if grp[0] not in ("BC", "DUAL0") else 25) * n, "budget_s": 120 * n})
-    out.append({"check": "colouring", "kinds": ["RWG", "SNC", "P1", "BC"], "meshkind": "multitrace", "examples": 30 * n, "budget_s": 120 * n})
-    out.append({"check": "isolation", "examples": 10 * n, "budget_s": 150 * n})
-    out.append({"check": "threads", "threads": 16, "budget_s": 400 * (1 if tier == "quick" else 4), "reps": 3 if tier == "quick" else 12})
+            out.append({"check": "colouring", "kinds": grp, "meshkind": mk, "examples": ex * n, "budget_s": 200 * n})
+    out.append({"check": "colouring", "kinds": ["RWG", "SNC", "P1", "BC"], "meshkind": "multitrace", "examples": 30 * n, "budget_s": 150 * n})
+    out.append({"check": "isolation", "examples": 8 * n, "budget_s": 240 * n})
+    out.append({"check": "threads", "threads": 16, "budget_s": 600 * (1 if q else 4), "reps": 3 if q else 12, "quick": q})
     return out
 
 
